@@ -50,6 +50,12 @@ type rwInterceptor struct {
 // WriteHeader records the status code to be sent right before the moment
 // the body is being written.
 func (i *rwInterceptor) WriteHeader(statusCode int) {
+	if statusCode >= 100 && statusCode < 200 && statusCode != http.StatusSwitchingProtocols {
+		// Informational responses (103 Early Hints, ...) are interim: they are forwarded as they
+		// are and the final status is still to come.
+		i.w.WriteHeader(statusCode)
+		return
+	}
 	if i.wroteHeader {
 		i.tx.DebugLogger().Warn().Msg("http: superfluous response.WriteHeader call")
 		return
